@@ -26,7 +26,7 @@ _SCALARS = [
     "None", "True", "False", "0", "1", "-1", "2", "255", "256", "2**70", "0.0", "1.5", "-0.0",
     "1j", '""', '"a"', '"ab"', '"{x}"', 'b""', 'b"a"', 'b"ab"',
 ]
-_ENUMS = ["E.a", "E.b", "E.c", "IE.p", "IE.q"]
+_ENUMS = ["E.a", "E.b", "E.c", "IE.p", "IE.q", "Perm.R", "Perm.W", "Perm.R | Perm.W"]
 _CONTAINERS = [
     "()", "(1,)", "(1, 2)", '(1, "a")', '("a", 1)', "(1, 2, 3)", '(1, "a", 1.5)', "(None,)", "(True, 0)",
     '(1, 2, "a")', '("a", "b")', "(1.5,)", "((1,), (2,))", '((1, "a"),)', "(b'a', 1)", "(E.a,)",
@@ -85,7 +85,7 @@ LEAF_TYPES = [
     "N", "TD", "TDp", "TDn", "HasX", "SupportsClose", "type",
     "Literal[1]", "Literal[True]", 'Literal["a"]', "Literal[0, 1]", "Literal[E.a]", 'Literal[b"a"]',
     "Literal[None]", 'Literal[1, "a"]', "Literal[E.a, E.b]", "tuple[()]",
-    "Rev[int, str]", "Rev[str, int]", "Fwd[int, str]", "IntKeyed[str]", "LS[int]", "FSub", "ISub",
+    "Rev[int, str]", "Rev[str, int]", "Fwd[int, str]", "IntKeyed[str]", "LS[int]", "FSub", "ISub", "Perm",
 ]
 UNARY = [
     "Optional[{0}]", "list[{0}]", "List[{0}]", "set[{0}]", "frozenset[{0}]", "tuple[{0}, ...]",
